@@ -11,5 +11,7 @@ CONSTANTS
   MaxDials = 3
   MaxCalls = 6
   MaxStore = 2
+  CtxMode = "returns"
+  MaxStalls = 2
   Tails = TRUE
 INVARIANTS Emit RunAgrees
